@@ -46,9 +46,10 @@ type PFault struct {
 
 // PCase is one execution: configuration, event tokens and fault plan.
 // Event token = kind char followed by flags:
-//   kind: 1 motion frame, 0 still frame, B bad frame, R camera reset, T test-recording request
-//   flags: c<k> window clock choice k (default 0 = well inside the window),
-//          d free-disk-space check fails on this event, s file creation fails on this event
+//
+//	kind: 1 motion frame, 0 still frame, B bad frame, R camera reset, T test-recording request
+//	flags: c<k> window clock choice k (default 0 = well inside the window),
+//	       d free-disk-space check fails on this event, s file creation fails on this event
 type PCase struct {
 	Cfg    PCfg     `json:"cfg"`
 	Events []string `json:"events"`
@@ -73,11 +74,12 @@ type PObs struct {
 }
 
 type monSink struct {
-	name   byte
-	d      *PDrv
-	open   bool
-	breach string
-	counts map[byte]int
+	name     byte
+	d        *PDrv
+	open     bool
+	breach   string
+	breachAt int // length of the observation log when the first breach happened
+	counts   map[byte]int
 }
 
 func (s *monSink) fails(call byte) bool {
@@ -104,6 +106,7 @@ func (s *monSink) CheckCanRecord() error {
 func (s *monSink) StartRecording(bg *cptvframe.Frame, thr uint16) error {
 	if s.open && s.breach == "" {
 		s.breach = fmt.Sprintf("start-while-open:event %d", s.d.ev+1)
+		s.breachAt = len(s.d.log)
 	}
 	fail := s.fails('s') || (s.name == 'm' && s.d.curStart)
 	s.d.log = append(s.d.log, PObs{Ev: s.d.ev, Src: s.name, Call: 's', OK: !fail, Thr: thr, BG: bg})
@@ -117,9 +120,14 @@ func (s *monSink) StartRecording(bg *cptvframe.Frame, thr uint16) error {
 func (s *monSink) WriteFrame(f *cptvframe.Frame) error {
 	if !s.open && s.breach == "" {
 		s.breach = fmt.Sprintf("write-while-closed:event %d", s.d.ev+1)
+		s.breachAt = len(s.d.log)
 	}
 	fail := s.fails('w')
-	s.d.log = append(s.d.log, PObs{Ev: s.d.ev, Src: s.name, Call: 'w', ID: f.Status.FrameCount, OK: !fail, Ptr: f, At: s.d.elapsed})
+	id := f.Status.FrameCount
+	if id >= badIDBase {
+		id = -(id - badIDBase)
+	}
+	s.d.log = append(s.d.log, PObs{Ev: s.d.ev, Src: s.name, Call: 'w', ID: id, OK: !fail, Ptr: f, At: s.d.elapsed})
 	if fail {
 		return errInjected
 	}
@@ -164,14 +172,16 @@ type PDrv struct {
 	curDisk  bool
 	curStart bool
 	// per event bookkeeping for the oracles
-	evKind   []byte
-	evID     []int  // id of the frame carried by the event (0 for R/T, negative for bad frames)
-	evOpen   []bool // window expected open at this event (own arithmetic)
-	evDisk   []bool
-	evStart  []bool
-	panicMsg string
-	tclk     *tclock
-	elapsed  time.Duration
+	evKind     []byte
+	evID       []int  // id of the frame carried by the event (0 for R/T, negative for bad frames)
+	evOpen     []bool // window expected open at this event (own arithmetic)
+	evDisk     []bool
+	evStart    []bool
+	panicMsg   string
+	tokens     []string
+	procErr    []error // Process() results, one per frame/bad-frame event in raw modes
+	tclk       *tclock
+	elapsed    time.Duration
 	nThrottled int
 }
 
@@ -206,6 +216,8 @@ func clockChoices(win string) []time.Duration {
 func windowOpen(win string, t time.Time) bool {
 	tod := time.Duration(t.Hour())*time.Hour + time.Duration(t.Minute())*time.Minute + time.Duration(t.Second())*time.Second + time.Duration(t.Nanosecond())
 	switch win {
+	case "closed":
+		return tod >= 1*time.Hour && tod < 2*time.Hour
 	case "day":
 		return tod >= 9*time.Hour && tod < 17*time.Hour
 	case "night":
@@ -249,6 +261,8 @@ func NewPDrv(c PCase) *PDrv {
 		w, err = window.New("09:00", "17:00", 0, 0)
 	case "night":
 		w, err = window.New("22:00", "06:00", 0, 0)
+	case "closed": // a window that is closed at the driver's default clock (12:00)
+		w, err = window.New("01:00", "02:00", 0, 0)
 	default:
 		w, err = window.New("12:00", "12:00", 0, 0)
 	}
@@ -274,7 +288,11 @@ func NewPDrv(c PCase) *PDrv {
 		tc := &config.ThermalThrottler{Activate: true, BucketSize: time.Duration(t.BucketSecs) * time.Second, MinRefill: time.Duration(t.RefillSecs) * time.Second}
 		motionRec = throttle.NewThrottledRecorderWithClock(d.m, tc, c.Cfg.Min+c.Cfg.Preview, throttledCounter{d}, d.tclk, d.cam)
 	}
-	d.mp = motion.NewMotionProcessor(d.parse, pMotionConf(c.Cfg.Trigger), rc, &config.Location{}, d, motionRec, d.cam, crArg, d.t)
+	parser := motion.FrameParser(d.parse)
+	if c.Cfg.Via == "lepton" {
+		parser = lepton3.ParseRawFrame // the real Lepton parser on small frames
+	}
+	d.mp = motion.NewMotionProcessor(parser, pMotionConf(c.Cfg.Trigger), rc, &config.Location{}, d, motionRec, d.cam, crArg, d.t)
 	return d
 }
 
@@ -320,7 +338,47 @@ func (d *PDrv) parse(raw []byte, out *cptvframe.Frame, edge int) error {
 	return nil
 }
 
+const badIDBase = 1 << 30
+
+// leptonRaw builds a raw Lepton frame (telemetry block + big-endian pixels) for the 4x4 camera.
+func (d *PDrv) leptonRaw(bad bool, id int, level bool) []byte {
+	f := cptvframe.NewFrame(d.cam)
+	d.fillFrame(f, id, level)
+	if bad {
+		f.Pix[1][1] = 0
+		f.Status.FrameCount = badIDBase + (-id)
+	}
+	return EncodeLepton(f)
+}
+
+// EncodeLepton is the harness's own encoder of the documented Lepton raw layout: a 640-byte
+// telemetry block of 16-bit big-endian words (32-bit values: low word first) then big-endian pixels.
+func EncodeLepton(f *cptvframe.Frame) []byte {
+	const telemetryBytes = 640
+	ny, nx := len(f.Pix), len(f.Pix[0])
+	raw := make([]byte, telemetryBytes+2*nx*ny)
+	put16 := func(word int, v uint16) { raw[2*word], raw[2*word+1] = byte(v>>8), byte(v) }
+	put32 := func(word int, v uint32) { put16(word, uint16(v)); put16(word+1, uint16(v>>16)) }
+	put32(1, uint32(f.Status.TimeOn/time.Millisecond))
+	put32(20, uint32(f.Status.FrameCount))
+	put16(22, f.Status.FrameMean)
+	put16(24, uint16(int(f.Status.TempC*100+0.5)+27315))
+	put16(29, uint16(int(f.Status.LastFFCTempC*100+0.5)+27315))
+	put32(30, uint32(f.Status.LastFFCTime/time.Millisecond))
+	i := telemetryBytes
+	for y := 0; y < ny; y++ {
+		for x := 0; x < nx; x++ {
+			raw[i], raw[i+1] = byte(f.Pix[y][x]>>8), byte(f.Pix[y][x])
+			i += 2
+		}
+	}
+	return raw
+}
+
 func (d *PDrv) raw(bad bool, id int, level bool) []byte {
+	if d.cfg.Via == "lepton" {
+		return d.leptonRaw(bad, id, level)
+	}
 	r := make([]byte, 6)
 	if bad {
 		r[0] = 1
@@ -378,8 +436,10 @@ func (d *PDrv) Apply(tok string) (perr error) {
 		}
 		d.nextID++
 		d.evID = append(d.evID, d.nextID)
-		if d.cfg.Via == "raw" {
-			return d.mp.Process(d.raw(false, d.nextID, d.level))
+		if d.cfg.Via == "raw" || d.cfg.Via == "lepton" {
+			err := d.mp.Process(d.raw(false, d.nextID, d.level))
+			d.procErr = append(d.procErr, err)
+			return err
 		}
 		f := cptvframe.NewFrame(d.cam)
 		d.fillFrame(f, d.nextID, d.level)
@@ -387,10 +447,12 @@ func (d *PDrv) Apply(tok string) (perr error) {
 	case 'B':
 		d.badCount++
 		d.evID = append(d.evID, -d.badCount)
-		if d.cfg.Via != "raw" {
-			panic("bad frames need via=raw")
+		if d.cfg.Via != "raw" && d.cfg.Via != "lepton" {
+			panic("bad frames need via=raw or lepton")
 		}
-		return d.mp.Process(d.raw(true, -d.badCount, d.level))
+		err := d.mp.Process(d.raw(true, -d.badCount, d.level))
+		d.procErr = append(d.procErr, err)
+		return err
 	case 'R':
 		d.evID = append(d.evID, 0)
 		d.mp.Reset(d.cam)
@@ -406,6 +468,7 @@ func (d *PDrv) Apply(tok string) (perr error) {
 // Run applies all events of a case; stops at a panic.
 func (d *PDrv) Run(events []string) {
 	for _, e := range events {
+		d.tokens = append(d.tokens, e)
 		d.Apply(e)
 		if d.panicMsg != "" {
 			return
@@ -417,13 +480,13 @@ func (d *PDrv) Run(events []string) {
 
 // PRec is one motion-sink recording reconstructed from the observation log.
 type PRec struct {
-	StartEv  int
-	Trigger  int // id of the frame being processed when StartRecording succeeded
-	IDs      []int
-	IDEv     []int // event index of each write
-	StopEv   int   // -1 while open
-	Thr      uint16
-	BG       *cptvframe.Frame
+	StartEv int
+	Trigger int // id of the frame being processed when StartRecording succeeded
+	IDs     []int
+	IDEv    []int // event index of each write
+	StopEv  int   // -1 while open
+	Thr     uint16
+	BG      *cptvframe.Frame
 }
 
 // motionOf returns per event whether MotionDetected was observed.
